@@ -91,7 +91,8 @@ inline Plan Gen(uint64_t seed)
    const int clients = 2 + (int) cfg.below(4), hosts = 1 + (int) cfg.below(3);
    const bool faultFree = cfg.oneIn(4);
    const bool useFilters = !cfg.oneIn(3), useBatch = cfg.oneIn(2), useDepartures = !cfg.oneIn(4);
-   p.push_back("cfg prop=C04 clients=" + I(clients) + " hosts=" + I(hosts) + " faultfree=" + I(faultFree));
+   const bool knownDefects = cfg.oneIn(12);   // one run in twelve may subscribe with an alias spelling or an empty clause (recorded findings F14, F9); kept rare so they mask little
+   p.push_back("cfg prop=C04 clients=" + I(clients) + " hosts=" + I(hosts) + " faultfree=" + I(faultFree) + " knowndefects=" + I(knownDefects));
    GenState g(clients, hosts);
    for (int c=0; c<clients; c++) if ((c < 2)||(cfg.pct(70))) GenConnect(p, g, cfg, fl, c, faultFree);
    p.push_back("step 2");
@@ -111,6 +112,14 @@ inline Plan Gen(uint64_t seed)
          // subscribe (or re-subscribe an existing pattern with a different filter)
          std::string pat;
          if ((!g.intent[c].empty())&&(wl.oneIn(4))) {auto it = g.intent[c].begin(); std::advance(it, wl.below((uint32_t) g.intent[c].size())); pat = *it;}
+         else if ((knownDefects)&&(wl.oneIn(25))&&(!g.intent[c].empty()))
+         {
+            // F14: a second spelling of a path this client already subscribes to (the relative form and the explicit /*/*/ form)
+            auto it = g.intent[c].begin(); std::advance(it, wl.below((uint32_t) g.intent[c].size())); const std::string base = *it;
+            if ((base.empty())||(base[0] == '/')) continue;
+            pat = "/*/*/" + base; g.intent[c].insert(pat);
+         }
+         else if ((knownDefects)&&(wl.oneIn(40))) {pat = Name(wl) + "/"; g.intent[c].insert(pat);}   // F9: a path with an empty clause
          else
          {
             pat = Pattern(wl, hosts);
